@@ -36,3 +36,85 @@ package vectorstore
 //@ func (VectorStore).DistanceFromFloat
 //@   trusted
 //@   pure
+
+// ---- Storable laws of the stored point types (properties C04, C08) ----
+// enumerable: a successful WriteTo of a non-empty point writes a key that the type's own
+// IdFromKey maps back to the id (so a flushed point is found again by a cold scan);
+// DeleteFrom removes every key WriteTo can write; ReadFrom reads those same keys.
+//@ spec nodeKeyOf(key []byte, id uint64, sfx byte) bool = len(key) == 10 && key[0] == 'n' && key[9] == sfx && le64at(key, 1) == id
+//@ spec enumOkV(key []byte) bool = len(key) == 10 && key[0] == 'n' && key[9] == 'v'
+//@ spec enumOkVQ(key []byte) bool = len(key) == 10 && key[0] == 'n' && (key[9] == 'v' || key[9] == 'q')
+
+//@ func (plainPoint).IdFromKey
+//@   property C04 C08
+//@   pure
+//@   arith bv
+//@   ensures result1 == enumOkV(key)
+//@   ensures result1 ==> result0 == le64at(key, 1)
+//@ func (plainPoint).WriteTo
+//@   property C04 C08
+//@   pure
+//@   arith bv
+//@   ensures ncalls(Put) == 1 && enumOkV(callarg(Put, 1, 1)) && le64at(callarg(Put, 1, 1), 1) == id
+//@   ensures callarg(Put, 1, 2) == callres(Float32ToBytes, 1, 0) && callarg(Float32ToBytes, 1, 0) == pp.Vector
+//@   ensures (result == nil) == (callres(Put, 1, 0) == nil)
+//@ func (plainPoint).DeleteFrom
+//@   property C04 C08
+//@   pure
+//@   arith bv
+//@   ensures ncalls(Delete) == 1 && nodeKeyOf(callarg(Delete, 1, 1), id, 'v')
+//@   ensures (result == nil) == (callres(Delete, 1, 0) == nil)
+//@ func (plainPoint).ReadFrom
+//@   property C04 C08
+//@   pure
+//@   allocates
+//@   arith bv
+//@   ensures ncalls(Get) == 1 && nodeKeyOf(callarg(Get, 1, 1), id, 'v')
+//@   ensures (err == nil) == (callres(Get, 1, 0) != nil)
+//@   ensures err != nil ==> err == cache.ErrNotFound
+//@   ensures err == nil ==> point.id == id && point.Vector == callres(BytesToFloat32, 1, 0) && callarg(BytesToFloat32, 1, 0) == callres(Get, 1, 0)
+//@ func (plainPoint).CheckAndClearDirty
+//@   property C04 C08
+//@   pure
+//@   ensures !result
+
+//@ func (*binaryQuantizedPoint).IdFromKey
+//@   property C04 C08
+//@   pure
+//@   arith bv
+//@   ensures result1 == enumOkVQ(key)
+//@   ensures result1 ==> result0 == le64at(key, 1)
+//@ func (*binaryQuantizedPoint).WriteTo
+//@   property C04 C08
+//@   pure
+//@   arith bv
+//@   requires bqp != nil
+//@   ensures result == nil && len(bqp.BinaryVector) != 0 ==> ncalls(Put) == 1 && enumOkVQ(callarg(Put, 1, 1)) && nodeKeyOf(callarg(Put, 1, 1), id, 'q') && callarg(Put, 1, 2) == callres(EdgeListToBytes, 1, 0) && callarg(EdgeListToBytes, 1, 0) == bqp.BinaryVector
+//@   ensures result == nil && len(bqp.BinaryVector) == 0 && len(bqp.Vector) != 0 ==> ncalls(Put) == 1 && enumOkVQ(callarg(Put, 2, 1)) && nodeKeyOf(callarg(Put, 2, 1), id, 'v') && callarg(Put, 2, 2) == callres(Float32ToBytes, 1, 0) && callarg(Float32ToBytes, 1, 0) == bqp.Vector
+//@   ensures len(bqp.BinaryVector) != 0 && callres(Put, 1, 0) != nil ==> result != nil
+//@   ensures len(bqp.BinaryVector) == 0 && len(bqp.Vector) != 0 && callres(Put, 2, 0) != nil ==> result != nil
+//@ func (*binaryQuantizedPoint).DeleteFrom
+//@   property C04 C08
+//@   pure
+//@   arith bv
+//@   ensures result == nil ==> ncalls(Delete) == 2
+//@   ensures nodeKeyOf(callarg(Delete, 1, 1), id, 'v')
+//@   ensures ncalls(Delete) == 2 ==> nodeKeyOf(callarg(Delete, 2, 1), id, 'q')
+//@   ensures callres(Delete, 1, 0) != nil ==> result != nil
+//@   ensures ncalls(Delete) == 2 && callres(Delete, 2, 0) != nil ==> result != nil
+//@ func (*binaryQuantizedPoint).ReadFrom
+//@   property C04 C08
+//@   pure
+//@   allocates
+//@   arith bv
+//@   ensures nodeKeyOf(callarg(Get, 1, 1), id, 'q')
+//@   ensures callres(Get, 1, 0) != nil ==> err == nil && ncalls(Get) == 1 && point.BinaryVector == callres(BytesToEdgeList, 1, 0) && callarg(BytesToEdgeList, 1, 0) == callres(Get, 1, 0)
+//@   ensures callres(Get, 1, 0) == nil ==> ncalls(Get) == 2 && nodeKeyOf(callarg(Get, 2, 1), id, 'v') && (err == nil) == (callres(Get, 2, 0) != nil)
+//@   ensures err != nil ==> err == cache.ErrNotFound
+//@   ensures err == nil ==> point != nil && fresh(point) && point.id == id
+//@   ensures err == nil && callres(Get, 1, 0) == nil ==> point.Vector == callres(BytesToFloat32, 1, 0) && callarg(BytesToFloat32, 1, 0) == callres(Get, 2, 0)
+//@ func (*binaryQuantizedPoint).CheckAndClearDirty
+//@   property C04 C08
+//@   requires bqp != nil
+//@   modifies bqp.isDirty
+//@   ensures result == old(bqp.isDirty) && !bqp.isDirty
